@@ -4,7 +4,7 @@ use typst_syntax::{ast::*, SyntaxKind, SyntaxNode};
 use super::{
     layout::flow::{FlowItem, FlowStylist},
     util::is_comment_node,
-    ArenaDoc, Context, Mode, PrettyPrinter,
+    ArenaDoc, Context, PrettyPrinter,
 };
 use crate::ext::{BoolExt, StrExt};
 
